@@ -24,3 +24,11 @@ MANIFEST = dict(
 # end-to-end tie (integrator): real caching clients against the fake server, direct oracle only (docs/csc.md)
 SPEC["observers"].append(dict(cmd="obs_csc", args=["-oracle", "c09"], n={"quick": 150, "thorough": 4000}, corpus=False))
 SPEC["rule"] += "; obs_csc: concurrent cached readers (DoCache / DoMultiCache / MGetCache) on a real client against the fake server with writers on another connection, per-key and flush invalidations, PX / virtual-clock expiries, disconnects and aborted transactions, checked by the C09 oracle of docs/csc.md"
+
+# caller side of DoCache(MGET / JSON.MGET) (builder csc, docs/csc.md): when the rewritten request fails, exactly the
+# flights the call started are cancelled - theorems in Props/C09mget.v over Model/CacheBatch.v, tied by obs_batch's
+# mgetfail cases (recording CacheStore: result + cancelled flights compared with the model) and by obs_csc's c09-mget scenarios
+SPEC["extra_props"] = SPEC.get("extra_props", []) + ["Props/C09mget.v"]
+SPEC["observers"].append(dict(cmd="obs_batch", args=["-kinds", "mgetfail"], imports=["Model.CacheBatch"], case_type="CacheBatch.case",
+                              check="CacheBatch.check_case", shard=200, n={"quick": 120, "thorough": 3000}, corpus=False))
+SPEC["rule"] += "; obs_batch -kinds mgetfail: DoCache(MGET / JSON.MGET) with hits, another caller's pending flights, misses and duplicates whose rewritten request is rejected at queue time (EXECABORT) or answered with an error inside EXEC, on a recording CacheStore"
